@@ -1012,7 +1012,7 @@ func init() {
 	externals["strconv.ParseFloat"] = func(fr *frame, a []value) value {
 		s, ok := a[0].(string)
 		if !ok {
-			return fr.i.parseSym(fr, "ParseFloat", a[0].(symStr), types.Float64)
+			return fr.i.parseSym(fr, "ParseFloat", a[0].(symStr), types.Float64, 0, int(fr.i.concretize(a[1])))
 		}
 		f, err := strconv.ParseFloat(s, int(fr.i.concretize(a[1])))
 		if err != nil {
@@ -1023,7 +1023,7 @@ func init() {
 	externals["strconv.ParseInt"] = func(fr *frame, a []value) value {
 		s, ok := a[0].(string)
 		if !ok {
-			return fr.i.parseSym(fr, "ParseInt", a[0].(symStr), types.Int64)
+			return fr.i.parseSym(fr, "ParseInt", a[0].(symStr), types.Int64, int(fr.i.concretize(a[1])), int(fr.i.concretize(a[2])))
 		}
 		n, err := strconv.ParseInt(s, int(fr.i.concretize(a[1])), int(fr.i.concretize(a[2])))
 		if err != nil {
@@ -1034,7 +1034,7 @@ func init() {
 	externals["strconv.ParseUint"] = func(fr *frame, a []value) value {
 		s, ok := a[0].(string)
 		if !ok {
-			return fr.i.parseSym(fr, "ParseUint", a[0].(symStr), types.Uint64)
+			return fr.i.parseSym(fr, "ParseUint", a[0].(symStr), types.Uint64, int(fr.i.concretize(a[1])), int(fr.i.concretize(a[2])))
 		}
 		n, err := strconv.ParseUint(s, int(fr.i.concretize(a[1])), int(fr.i.concretize(a[2])))
 		if err != nil {
@@ -1045,7 +1045,7 @@ func init() {
 	externals["strconv.Atoi"] = func(fr *frame, a []value) value {
 		s, ok := a[0].(string)
 		if !ok {
-			return fr.i.parseSym(fr, "Atoi", a[0].(symStr), types.Int)
+			return fr.i.parseSym(fr, "Atoi", a[0].(symStr), types.Int, 10, 0)
 		}
 		n, err := strconv.Atoi(s)
 		if err != nil {
@@ -1156,24 +1156,28 @@ func (i *interpreter) itoaSym(sv symVal) value {
 	return symStr{out}.norm()
 }
 
-// parseSym: strconv.Parse{Float,Int,Uint}/Atoi of a symbolic string.
-// Result value and verdict are uninterpreted functions of the byte vector
-// (fresh per distinct vector, shared by identical vectors and across the
-// parse functions' common grammar is NOT assumed). For short decimal
-// strings the exact semantics are added by exactDecimal.
-func (i *interpreter) parseSym(fr *frame, fn string, s symStr, k types.BasicKind) value {
+// parseSym: strconv.Parse{Float,Int,Uint}/Atoi of a symbolic string with
+// concrete base and bit size.
+//
+// Exact whenever the string has at most two distinct symbolic bytes (any
+// length): every instantiation of those bytes (over their recorded domains,
+// or all 256 values) is pushed through the real strconv function natively and
+// verdict and value become an ite-chain over the accepted instantiations.
+// Otherwise verdict and value are uninterpreted functions of the byte vector,
+// the base and the bit size, with the lemmas of exactDecimal.
+func (i *interpreter) parseSym(fr *frame, fn string, s symStr, k types.BasicKind, base, bits int) value {
 	if s.hasOpaque() {
 		panic(unsupported{"strconv." + fn + " of a string containing a formatted symbolic number"})
 	}
 	c := i.ctx()
-	var okT, valT *sym.Term
-	if len(s.b) <= 2 {
-		okT, valT = i.exactParse(fn, s, k)
-	} else {
-		key := vecKey(s)
-		okT = c.Var("pok_"+fn+"_"+key, sym.Bool)
-		valT = c.Var("pval_"+fn+"_"+key, kindSort(k))
-		i.exactDecimal(fn, s, okT, valT, k)
+	okT, valT, exact := i.exactParse(fn, s, k, base, bits)
+	if !exact {
+		key := fmt.Sprintf("%s_%d_%d_%s", fn, base, bits, vecKey(s))
+		okT = c.Var("pok_"+key, sym.Bool)
+		valT = c.Var("pval_"+key, kindSort(k))
+		if base == 0 || base == 10 {
+			i.exactDecimal(fn, s, okT, valT, k, bits)
+		}
 	}
 	if i.truth(i.boolSym(okT)) {
 		return tuple{i.mkSym(valT, k), iface{}}
@@ -1184,9 +1188,9 @@ func (i *interpreter) parseSym(fr *frame, fn string, s symStr, k types.BasicKind
 	return tuple{concreteOfKind(k, 0), iface{t: types.NewPointer(t), v: ptrTo(structure{fn, s, errSyntax})}}
 }
 
-// parseTable: all strings of a given length accepted by a strconv parser, with their values.
+// parseEntry: one accepted instantiation of the symbolic bytes and its value.
 type parseEntry struct {
-	s    string
+	vals [2]byte
 	bits uint64
 }
 
@@ -1195,16 +1199,16 @@ var (
 	parseTabs  = map[string][]parseEntry{}
 )
 
-func parseNative(fn, s string) (uint64, bool) {
+func parseNative(fn, s string, base, bits int) (uint64, bool) {
 	switch fn {
 	case "ParseFloat":
-		f, err := strconv.ParseFloat(s, 64)
+		f, err := strconv.ParseFloat(s, bits)
 		return math.Float64bits(f), err == nil
 	case "ParseInt":
-		n, err := strconv.ParseInt(s, 0, 64) // the repository always parses with base 0
+		n, err := strconv.ParseInt(s, base, bits)
 		return uint64(n), err == nil
 	case "ParseUint":
-		n, err := strconv.ParseUint(s, 0, 64)
+		n, err := strconv.ParseUint(s, base, bits)
 		return n, err == nil
 	case "Atoi":
 		n, err := strconv.Atoi(s)
@@ -1213,56 +1217,100 @@ func parseNative(fn, s string) (uint64, bool) {
 	return 0, false
 }
 
-func parseTable(fn string, n int) []parseEntry {
-	parseTabMu.Lock()
-	defer parseTabMu.Unlock()
-	key := fn + "/" + strconv.Itoa(n)
-	if t, ok := parseTabs[key]; ok {
-		return t
-	}
-	var out []parseEntry
-	buf := make([]byte, n)
-	var rec func(p int)
-	rec = func(p int) {
-		if p == n {
-			if bits, ok := parseNative(fn, string(buf)); ok {
-				out = append(out, parseEntry{string(buf), bits})
-			}
-			return
-		}
-		for b := 0; b < 256; b++ {
-			buf[p] = byte(b)
-			rec(p + 1)
-		}
-	}
-	rec(0)
-	parseTabs[key] = out
-	return out
-}
-
-// exactParse: exact verdict and value for strings of at most 2 bytes, from
-// the natively enumerated table of accepted strings (ParseInt/ParseUint in base 0).
-func (i *interpreter) exactParse(fn string, s symStr, k types.BasicKind) (*sym.Term, *sym.Term) {
+// exactParse: exact verdict and value when at most two distinct symbolic
+// bytes occur in s (exact=false otherwise).
+func (i *interpreter) exactParse(fn string, s symStr, k types.BasicKind, base, bits int) (okT, valT *sym.Term, exact bool) {
 	c := i.ctx()
-	tab := parseTable(fn, len(s.b))
-	okT := c.False
-	var valT *sym.Term
+	var syms []*sym.Term
+	pos := make([]int, len(s.b)) // index into syms, -1 for concrete
+	buf := make([]byte, len(s.b))
+	for j, b := range s.b {
+		switch b := b.(type) {
+		case uint8:
+			pos[j] = -1
+			buf[j] = b
+		case symVal:
+			idx := -1
+			for q, t := range syms {
+				if t == b.t {
+					idx = q
+				}
+			}
+			if idx < 0 {
+				if len(syms) == 2 {
+					return nil, nil, false
+				}
+				syms = append(syms, b.t)
+				idx = len(syms) - 1
+			}
+			pos[j] = idx
+		default:
+			return nil, nil, false
+		}
+	}
+	doms := make([]string, len(syms))
+	var keyb strings.Builder
+	fmt.Fprintf(&keyb, "%s/%d/%d/", fn, base, bits)
+	for j := range s.b {
+		if pos[j] < 0 {
+			fmt.Fprintf(&keyb, "c%02x", buf[j])
+		} else {
+			fmt.Fprintf(&keyb, "s%d", pos[j])
+		}
+	}
+	for q, t := range syms {
+		if d, ok := i.w.domains[t]; ok {
+			doms[q] = d
+		} else {
+			all := make([]byte, 256)
+			for v := range all {
+				all[v] = byte(v)
+			}
+			doms[q] = string(all)
+		}
+		fmt.Fprintf(&keyb, "/%x", doms[q])
+	}
+	key := keyb.String()
+	parseTabMu.Lock()
+	tab, ok := parseTabs[key]
+	if !ok {
+		var vals [2]byte
+		var rec func(q int)
+		rec = func(q int) {
+			if q == len(syms) {
+				for j := range buf {
+					if pos[j] >= 0 {
+						buf[j] = vals[pos[j]]
+					}
+				}
+				if bv, ok := parseNative(fn, string(buf), base, bits); ok {
+					tab = append(tab, parseEntry{vals, bv})
+				}
+				return
+			}
+			for x := 0; x < len(doms[q]); x++ {
+				vals[q] = doms[q][x]
+				rec(q + 1)
+			}
+		}
+		rec(0)
+		parseTabs[key] = tab
+	}
+	parseTabMu.Unlock()
+	okT = c.False
 	if kindIsFloat(k) {
 		valT = c.F64Lit(0)
 	} else {
 		valT = c.BVLit(0, kindWidth(k))
 	}
 	for _, e := range tab {
-		eq := i.strEq(s, e.s)
-		var t *sym.Term
-		switch eq := eq.(type) {
-		case bool:
-			if !eq {
-				continue
-			}
-			t = c.True
-		case symVal:
-			t = eq.t
+		conds := make([]*sym.Term, len(syms))
+		for q, t := range syms {
+			conds[q] = c.Eq(t, c.BVLit(uint64(e.vals[q]), 8))
+		}
+		t := c.And(conds...)
+		if t == c.False {
+			continue
 		}
 		okT = c.Or(okT, t)
 		var lit *sym.Term
@@ -1273,7 +1321,7 @@ func (i *interpreter) exactParse(fn string, s symStr, k types.BasicKind) (*sym.T
 		}
 		valT = c.Ite(t, lit, valT)
 	}
-	return okT, valT
+	return okT, valT, true
 }
 
 func vecKey(s symStr) string {
@@ -1296,7 +1344,7 @@ func vecKey(s symStr) string {
 // all decimal digits (after an optional '-'): ok holds and val is the value.
 // Strings containing a byte outside [0-9+-._eExXoObBaAcCdDfFiInNtTyYpP]
 // never parse. Everything in between stays uninterpreted.
-func (i *interpreter) exactDecimal(fn string, s symStr, okT, valT *sym.Term, k types.BasicKind) {
+func (i *interpreter) exactDecimal(fn string, s symStr, okT, valT *sym.Term, k types.BasicKind, bits int) {
 	c := i.ctx()
 	n := len(s.b)
 	if n == 0 {
@@ -1319,7 +1367,7 @@ func (i *interpreter) exactDecimal(fn string, s symStr, okT, valT *sym.Term, k t
 		anyBad = append(anyBad, c.Not(c.Or(ors...)))
 	}
 	i.lemma(c.App("=>", sym.Bool, c.Or(anyBad...), c.Not(okT)))
-	if n > 4 || !(kindIsInt(k) || kindIsFloat(k)) {
+	if n > 4 || !(kindIsInt(k) || kindIsFloat(k)) || (kindIsInt(k) && bits != 0 && bits < 16) {
 		return
 	}
 	// all digits, no leading zero unless single digit
